@@ -20,9 +20,9 @@ from walkcheck import make_new_exec
 from p11client import Died, Hang
 from ck import CK
 import persist
-from persist import UNAVAILABLE, ApiError
+from persist import UNAVAILABLE, ApiError, Lib
 
-SO = b'so\x00pin\xff-c05'; USER = b'\xffuser\x00pin-c05'
+SO = persist.SO; USER = persist.USER
 CLASSES = ['data', 'data', 'cert-x509', 'cert-pgp', 'sk-aes', 'sk-aes', 'sk-des3', 'sk-des2', 'sk-generic', 'sk-hmac', 'pub-rsa', 'pub-dsa', 'pub-ec', 'pub-dh', 'pub-ed',
            'priv-rsa', 'priv-dsa', 'priv-ec', 'priv-dh', 'priv-ed', 'dom-dsa', 'dom-dh']
 
@@ -34,47 +34,6 @@ def sizes(rnd):
     if r < .90: return rnd.choice((4096, rnd.randrange(65, 4097)))
     if r < .975: return rnd.randrange(4097, 65537)
     return rnd.randrange(300 * 1024, 400 * 1024)
-
-class Lib:
-    """one executor on one token directory, with restarts"""
-    def __init__(s, job, d, backend, cfg='asan', extra=''):
-        s.ck = CK(job['hdr']); s.new_exec = make_new_exec(job['paths'], s.ck); s.cfg = cfg; s.d = d; s.backend = backend; s.extra = extra; s.x = None; s.universe = persist.attr_universe(s.ck)
-    def start(s):
-        s.x = s.new_exec(s.cfg, s.d, s.backend, s.extra, reuse_dir=True); s.x.timeout = 300
-        r = s.x.call('C_Initialize', locking='os'); assert r['rv'] == 0, r
-    def stop(s):
-        if s.x is not None:
-            try: s.x.call('C_Finalize'); s.x.close()
-            except Exception: s.x.kill()
-            s.x = None
-    def restart(s, kind):
-        if kind == 'reinit':
-            r = s.x.call('C_Finalize'); assert r['rv'] == 0, r
-            r = s.x.call('C_Initialize', locking='os'); assert r['rv'] == 0, r
-        else: s.stop(); s.start()
-    def init_token(s, label, so=SO, user=USER):
-        slot = s.x.call('C_GetSlotList', count=32)['slots'][-1]
-        r = s.x.call('C_InitToken', slot=slot, pin=so.hex(), label=label.hex()); assert r['rv'] == 0, r
-        h = s.x.call('C_OpenSession', slot=slot)['h']
-        assert s.x.call('C_Login', s=h, user=0, pin=so.hex())['rv'] == 0; assert s.x.call('C_InitPIN', s=h, pin=user.hex())['rv'] == 0
-        s.x.call('C_Logout', s=h); s.x.call('C_CloseSession', s=h); s.x.call('C_GetSlotList', null=True)
-    def tokens(s):
-        """[(slot, token info)] of initialised tokens"""
-        out = []
-        for slot in s.x.call('C_GetSlotList', count=32)['slots']:
-            ti = s.x.call('C_GetTokenInfo', slot=slot)
-            if ti['rv'] == 0 and ti['flags'] & s.ck.CKF_TOKEN_INITIALIZED: out.append((slot, ti))
-        return out
-    def slot_of(s, label):
-        for slot, ti in s.tokens():
-            if bytes.fromhex(ti['label']).rstrip(b' ') == label: return slot
-        return None
-    def login(s, label, pin=USER, user=1):
-        slot = s.slot_of(label)
-        if slot is None: return None
-        h = s.x.call('C_OpenSession', slot=slot)['h']; r = s.x.call('C_Login', s=h, user=user, pin=pin.hex())
-        return h if r['rv'] == 0 else None
-    def read(s, h, o): return persist.read_object(s.x, h, o, s.ck, s.universe)
 
 def kind_of(name, v):
     """attribute kind + size class of a template value"""
@@ -117,7 +76,13 @@ class History:
     # ---- model maintenance
     def adopt(s, o, h, tmpl, call, base=None):
         """after a successful call: snapshot through the API; the model is the snapshot (+ what the template promised)"""
-        o.h = h; snap = s.L.read(s.S, h); promised = persist.template_api_form(s.ck, tmpl)
+        o.h = h; promised = persist.template_api_form(s.ck, tmpl)
+        try: snap = s.L.read(s.S, h)
+        except ApiError as e:
+            # the object cannot even be read right after the call that made it
+            if base is not None: s.V(f'{call}|{s.backend}|attributes-not-copied', 'C_CopyObject returned CKR_OK but the new object has none of the attribute values of the original', cls=o.cls, unreadable=str(e))
+            else: s.part.observe('object unreadable right after %s (outside C05)' % call, {'class': o.cls, 'error': str(e)})
+            o.alive = False; o.h = None; o.broken = True; return
         for a, v in promised.items():
             g = snap.get(a)
             if g == UNAVAILABLE: o.hidden[a] = v
@@ -217,9 +182,10 @@ class History:
         if t.master_key(USER + b'x') is not None: s.V(f'decoder|{s.backend}|master-key-without-pin', 'a wrong PIN unwraps the master key')
         disk = {}
         for o in t.objects:
-            v, probs = o.api_view(mk, s.ck)
-            for p in probs: s.V(f'decoder|{s.backend}|private-value-does-not-decrypt', p, where=where)
-            tg = tag_of(v)
+            v, probs = o.api_view(mk, s.ck); tg = tag_of(v); mo = s.M.get(tg)
+            for p in probs:
+                if mo is not None and mo.alive and not mo.broken: s.V(f'decoder|{s.backend}|private-value-does-not-decrypt', p, where=where)
+                else: part.observe('stored object outside the model does not decrypt (left by a broken copy or a refused call)', {'backend': s.backend, 'problem': p[:80]})
             if tg in disk: s.V(f'decoder|{s.backend}|duplicate-object-on-disk', 'two stored objects carry the same tag', tag=tg)
             disk[tg] = v
         for tag, o in s.M.items():
@@ -245,7 +211,9 @@ class History:
             try: attrs = s.L.read(s.S, h)
             except ApiError as e:
                 rv2, v = s.x().getattrs(s.S, h, ['CKA_LABEL'], cap=512); tg = (v.get('CKA_LABEL') or b'?').split(b'|')[0]; o = s.M.get(tg)
-                s.V(f'{o.origin if o else "?"}|{s.backend},{o.cls if o else "?"}|unreadable-after-restart', 'an object cannot be read back after a restart: %s' % e, restart=kind); by[tg] = (h, None); continue
+                if o is None or o.broken or not o.alive: part.observe('unreadable object of unknown origin after a restart (left by a broken copy or a refused call)', {'backend': s.backend, 'error': str(e)})
+                else: s.V(f'{o.origin}|{s.backend},{o.cls}|unreadable-after-restart', 'an object cannot be read back after a restart: %s' % e, restart=kind)
+                by[tg] = (h, None); continue
             tg = tag_of(attrs)
             if tg in by: s.V(f'C_FindObjects|{s.backend}|duplicate-object-after-restart', 'the same object is returned twice after a restart', tag=tg)
             by[tg] = (h, attrs)
@@ -485,7 +453,8 @@ def run(ctx):
         for fx in ('file/openssl', 'file/botan', 'db/openssl', 'db/botan'):
             jobs.append(dict(common, kind='fixture', fixture=fx, cfg=cfg, decode=(cfg == 'asan')))
     fb = ('file', 'db'); calls = ['C_CreateObject', 'C_SetAttributeValue', 'C_DestroyObject', 'C_CopyObject']
-    for b in fb: jobs.append(dict(common, kind='fault-prep', backend=b, cfg='asan', calls=calls))
+    # db back-end: C_CopyObject is broken wholesale there (see the histories), so it has no effect a fault could lose
+    for b in fb: jobs.append(dict(common, kind='fault-prep', backend=b, cfg='asan', calls=[c for c in calls if not (b == 'db' and c == 'C_CopyObject')]))
     # long jobs first
     jobs.sort(key=lambda j: {'fault-prep': 0, 'fixture': 1, 'history': 2}[j['kind']])
     for part in pmap(dispatch, jobs, ctx.nproc): ctx.merge(part)
@@ -494,7 +463,9 @@ def run(ctx):
         try: prep = json.load(open(os.path.join(ctx.scratch, 'fault-prep-%s.json' % b)))
         except FileNotFoundError: ctx.inconc('no fault preparation for back-end ' + b); continue
         for call, p in prep.items():
-            ks = list(range(1, p['nops'] + 1)); chunk = max(1, len(ks) // 12 + 1)
+            ks = list(range(1, p['nops'] + 1))
+            if ctx.quick and len(ks) > 300: ks = [k for k in ks if k % 4 == ctx.seed % 4 or k > p['nops'] - 45 or k <= 45]      # the ~700 operations of a db create: a quarter + both ends
+            chunk = max(1, len(ks) // 12 + 1)
             for i in range(0, len(ks), chunk): jobs.append(dict(common, kind='fault', backend=b, cfg='asan', call=call, ks=ks[i:i + chunk]))
     for part in pmap(dispatch, jobs, ctx.nproc): ctx.merge(part)
     ctx.assumptions += ['durability is against process restart, not power loss (the library never calls fsync; a sandbox cannot cut power)',
